@@ -1145,6 +1145,28 @@ pub fn run(seed: u64, profile: &ConcProfile, replay: Option<Vec<u16>>) -> RunRep
                                 let prop = if profile.with_scheduler {
                                     "C18"
                                 } else { "C07" };
+                                // A maintenance run (forced or due
+                                // re-publication) overlapped the calls:
+                                // the re-issue must not have changed or
+                                // lost any content (C14).
+                                let maintenance = thread_ops.iter().flatten()
+                                    .any(|op| matches!(
+                                        op, Op::RepublishAll { .. }
+                                    ));
+                                if profile.with_scheduler && maintenance {
+                                    violations.push(Violation {
+                                        prop: "C14".into(),
+                                        rule: "maintenance_overlap_changed_content".into(),
+                                        detail: format!(
+                                            "a re-publication run that \
+                                             overlapped other requests left \
+                                             a state no serial execution \
+                                             gives: {}",
+                                            first_diff(b, a).unwrap_or_default()
+                                        ),
+                                        step: 0,
+                                    });
+                                }
                                 violations.push(Violation {
                                     prop: prop.into(),
                                     rule: "state_not_serialisable".into(),
